@@ -11,6 +11,8 @@ import KafkaVerif.Lemmas.FetchDecoder
 import KafkaVerif.Model.ReaderLoop
 import KafkaVerif.Model.ReaderFront
 import KafkaVerif.Gen.DecoderFacts
+import KafkaVerif.Lemmas.ReaderFront
+import KafkaVerif.Lemmas.ByteLayout
 
 namespace KV.C02
 
@@ -157,6 +159,30 @@ example : LWF 0 [.m 1 97 1 60, .w 1 100 90 [(0, 2), (2, 3)], .b2 101 104 false 3
 (a response no contract-obeying broker sends) makes readMessageV1's loop parse the batch header as a message -/
 theorem unsafe_layout_counterexample :
     (readAll .fixed false 8 20 (responseTokens [.m 1 5 1 60, .b2 10 11 false 12 [(0, 2, 12)]] (-1))).2.2 = .desync := by decide
+
+/-- `single_fetch` about **bytes** for the sublanguage "untruncated message set of uncompressed v2 record batches":
+the bytes the reference encoder (`Spec/RecordBatch.lean`) produces for the batches `bs` tokenize
+(`Spec/ByteLayout.tokenizeSet`, proved to invert the encoder: `tokenizeSet_enc`) to a stream on which the decoder
+delivers exactly the stored records at or above `o`.  `crc` is any checksum function below 2³², `dg` any digest of
+the observable record fields. -/
+theorem single_fetch_bytes (crc : Bytes → Nat) (hcrc : ∀ b, crc b < RW.M32) (dg : Spec.RB.FrameV2 → Spec.RB.RecV2 → Nat)
+    (bs : List BBatch) (hframes : ∀ b ∈ bs, b.frame.WF) (nb : Int) (hnb : 0 ≤ nb) (hwf : LWF nb (layoutOf dg bs))
+    (o hwm : Int) (ho : 0 ≤ o) (hne : hwm ≠ o) (expired : Bool) :
+    ∃ toks, tokenizeSet crc dg bs.length (encSetV2 crc bs) = some toks ∧
+      (readAll .fixed expired o hwm toks).1 = (allRecords (layoutOf dg bs)).filter (fun r => o ≤ r.1) ∧
+      (readAll .fixed expired o hwm toks).2.2 ≠ .desync ∧
+      (∀ r ∈ allRecords (layoutOf dg bs), o ≤ r.1 → r.1 < (readAll .fixed expired o hwm toks).2.1 →
+        r ∈ (readAll .fixed expired o hwm toks).1) := by
+  refine ⟨allTokens (layoutOf dg bs), tokenizeSet_enc crc hcrc dg bs hframes _ (Nat.le_refl _), ?_⟩
+  have hsafe : Safe o (layoutOf dg bs) := by
+    apply safe_of_v2
+    intro it hit
+    simp only [layoutOf, List.mem_map] at hit
+    obtain ⟨b, _, rfl⟩ := hit
+    rfl
+  have h := single_fetch (layoutOf dg bs) nb hnb hwf o hwm ho hsafe hne (-1) expired
+  simp only [responseTokens, containedRecords, show ((-1 : Int) < 0) from by decide, if_true] at h
+  exact ⟨h.1, h.2.1, h.2.2.1⟩
 
 /-- observation (a), not a finding: *outside* the fetch contract — a response cut inside its first v2 batch — the
 records below the start offset that were read and skipped leave the position below it (103 → 102); a later complete
@@ -309,5 +335,78 @@ theorem setoffset_next (f : Front) (expected : List Rec) (hfed : Fed f expected)
 /-- stale entries are skipped: after SetOffset the two queued messages of the old fetcher are dropped -/
 example : (({ version := 0, queue := [(0, (5, 1)), (0, (6, 2))] } : Front).setOffset.enqueue 1 (3, 9)).fetchMessage
     = some ((3, 9), { version := 1, queue := [] }) := by rfl
+
+/-! ### `Fed` discharged: the front as a transition system (Model/ReaderFront.lean `fstep`)
+
+Events: `setOffset o` (cancel, version++, start a fetcher at `o` that carries the new tag), `enqueue t` (fetcher `t` —
+current or stale, cancelled or not, any number of times — sends its next record), `fetch` (FetchMessage).  The
+fetchers send, in order, the stored records at or above their start offset (`iterated_fetch` for the loop of §3). -/
+
+/-- the invariant holds initially and along every run -/
+theorem front_invariant (log : List Rec) : ∀ (es : List FEv) (s s' : FS) (ms : List Rec),
+    FInv log s → frun log s es = some (s', ms) → FInv log s' := by
+  intro es
+  induction es with
+  | nil => intro s s' ms h hr; simp only [frun, Option.some.injEq, Prod.mk.injEq] at hr; rw [← hr.1]; exact h
+  | cons e es ih =>
+    intro s s' ms h hr
+    simp only [frun] at hr
+    cases hs : fstep log s e with
+    | none => simp [hs] at hr
+    | some p =>
+      obtain ⟨s1, m⟩ := p
+      simp only [hs] at hr
+      cases hq : frun log s1 es with
+      | none => simp [hq] at hr
+      | some q =>
+        obtain ⟨s2, ms'⟩ := q
+        simp only [hq, Option.some.injEq, Prod.mk.injEq] at hr
+        rw [← hr.1]
+        exact ih s1 s2 ms' (finv_step h hs).1 hq
+
+/-- `setoffset_next`, full form: after `SetOffset(o)` returns — in any reachable state of the front, whatever is still
+queued and whatever the old fetchers still enqueue — the messages the following FetchMessage calls return are, in
+order, the stored records at or above `o`; in particular the first one is the stored record with the smallest
+offset at or above `o`. -/
+theorem frun_cons {log : List Rec} {s s' : FS} {e : FEv} {es : List FEv} {ms : List Rec}
+    (h : frun log s (e :: es) = some (s', ms)) :
+    ∃ s1 m ms', fstep log s e = some (s1, m) ∧ frun log s1 es = some (s', ms') ∧
+      ms = (match m with | some r => [r] | none => []) ++ ms' := by
+  simp only [frun] at h
+  cases hs : fstep log s e with
+  | none => simp [hs] at h
+  | some p =>
+    obtain ⟨s1, m⟩ := p
+    simp only [hs] at h
+    cases hq : frun log s1 es with
+    | none => simp [hq] at h
+    | some q =>
+      obtain ⟨s2, ms'⟩ := q
+      simp only [hq, Option.some.injEq, Prod.mk.injEq] at h
+      exact ⟨s1, m, ms', rfl, by rw [← h.1]; exact hq, h.2.symm⟩
+
+theorem setoffset_delivers (log : List Rec) (s0 s' : FS) (h0 : FInv log s0) (o : Int) (es : List FEv)
+    (hns : ∀ e ∈ es, notSet e) (ms : List Rec) (hr : frun log s0 (.setOffset o :: es) = some (s', ms)) :
+    ms = (feed log o).take ms.length := by
+  obtain ⟨s1, m, ms', hs, hq, rfl⟩ := frun_cons hr
+  have hinv := (finv_step h0 hs).1
+  simp only [fstep, Option.some.injEq, Prod.mk.injEq] at hs
+  obtain ⟨rfl, rfl⟩ := hs
+  have := front_run log es _ s' ms' (Fetcher.mk (s0.version + 1) o 0) hinv (by simp) rfl hns hq
+  simpa using this
+
+theorem setoffset_first (log : List Rec) (s0 s' : FS) (h0 : FInv log s0) (o : Int) (es : List FEv)
+    (hns : ∀ e ∈ es, notSet e) (r : Rec) (ms : List Rec) (hr : frun log s0 (.setOffset o :: es) = some (s', r :: ms)) :
+    (feed log o).head? = some r := by
+  have := setoffset_delivers log s0 s' h0 o es hns (r :: ms) hr
+  cases hf : feed log o with
+  | nil => rw [hf] at this; simp at this
+  | cons x xs => rw [hf] at this; simp only [List.length_cons, List.take_succ_cons, List.cons.injEq] at this; simp [this.1]
+
+/-- a run: two messages of fetcher 1 are queued, SetOffset(12), the cancelled fetcher still enqueues one more, the new
+one enqueues; FetchMessage skips the three stale entries -/
+example : (frun [(10, 0), (11, 1), (12, 2), (13, 3)] {}
+    [.setOffset 10, .enqueue 1, .enqueue 1, .setOffset 12, .enqueue 1, .enqueue 2, .fetch]).map (·.2) = some [(12, 2)] := by
+  decide
 
 end KV.C02
